@@ -78,12 +78,19 @@ def run_property(prop, cfg, tier, seed, jobs, work, rebaseline=False, only=None)
     extra_cov = {}
 
     # ---------------- Verus bundles ----------------
+    from .extract import LostAnchor
     for b in cfg.get('verus', []):
         if b.get('tier') == 'thorough' and tier != 'thorough':
             continue
         profile = b.get('profile', [prop])
-        br = BundleRun(b['name'], b['build'], profile, b, work)
-        units = br.unit_names(prop)
+        try:
+            br = BundleRun(b['name'], b['build'], profile, b, work)
+            units = br.unit_names(prop)
+        except (LostAnchor, Undecided) as ex:
+            if rebaseline or only:
+                raise
+            undecided.append('%s: %s' % (b['name'], ex))
+            continue
         if b.get('units_filter'):
             units = [u for u in units if b['units_filter'](u)]
         key = b['name']
@@ -260,6 +267,27 @@ def run_property(prop, cfg, tier, seed, jobs, work, rebaseline=False, only=None)
     log('== %s: %d/%d obligations discharged, %d failed obligation(s), %d undecided, %.1fs' % (prop, n_ok, n_obl, len(failures), len(undecided), wall))
     for l in known_lines:
         print(l)
+    if undecided and not failures and not only and cfg.get('hunt_when_undecided', True):
+        # The proof does not apply (restructured code, front-end rejection, rlimit).  That alone is never an alarm; but a
+        # concrete input on which the REAL code disagrees with the rules-level oracle is a violation by replay.
+        from . import hunter
+        case = None
+        try:
+            case = hunter.hunt(prop, None, tier, seed, work)
+        except Exception as ex:
+            log('hunter error: %r' % (ex,))
+        if case is not None:
+            os.makedirs(os.path.join(VERIF, 'replays'), exist_ok=True)
+            h = hashlib.sha256(('undecided' + json.dumps(case, sort_keys=True)).encode()).hexdigest()[:10]
+            rp = os.path.join(VERIF, 'replays', '%s-%s.json' % (prop, h))
+            obl = 'verifier undecided (%s); violation established by native replay of a failing input: %s' % (' '.join(undecided[0].split())[:200], (case.get('observed') or '')[:200])
+            json.dump({'property': prop, 'obligation': obl, 'unit': None, 'bundle': None, 'verifier_output': '\n'.join(undecided)[:3000], 'case': case, 'repo_head': _git_head(REPO)}, open(rp, 'w'), indent=1)
+            ev['violations'] = 1
+            ev['coverage']['failed_obligations'] = [obl]
+            D.write_evidence(prop, ev)
+            log('FAILED-OBLIGATION ' + obl)
+            print('VIOLATION property=%s replay=%s' % (prop, rp))
+            return 1
     if undecided:
         for u in undecided[:10]:
             log('UNDECIDED-DETAIL ' + ' '.join(u.split())[:500])
